@@ -337,11 +337,12 @@ func (r vlRec) MarshalJSON() ([]byte, error) {
 }
 
 type vlPair struct {
-	L    int32  `json:"l"`
-	R    int32  `json:"r"`
-	Mode string `json:"mode"` // "all": every LCM shard id; "sample": boundary + N sampled ids; "boundary": boundary ids only, one at a time
-	N    int    `json:"n"`
-	Grpc int    `json:"grpc"` // how many of the ids also go through the real grpc path (boundary ids first)
+	L    int32   `json:"l"`
+	R    int32   `json:"r"`
+	Mode string  `json:"mode"` // "all": every LCM shard id; "sample": boundary + N sampled ids; "boundary": boundary ids only, one at a time
+	N    int     `json:"n"`
+	Grpc int     `json:"grpc"` // how many of the ids also go through the real grpc path (boundary ids first)
+	Ids  []int32 `json:"ids"`  // mode "ids": exactly these shard ids (replay of one record)
 }
 
 const (
@@ -571,6 +572,9 @@ func vlPairRun(p vlPair, seed int64, bound time.Duration) ([]vlRec, error) {
 				idset[s] = true
 				ids = append(ids, s)
 			}
+		}
+		if p.Mode == "ids" {
+			boundary = p.Ids
 		}
 		for _, s := range boundary {
 			add(s)
